@@ -365,6 +365,37 @@ func monC07(c *drv.Ctx) {
 				}
 				cs.C.Obs("failed loads checked", 1)
 			}
+			// a load with one key twice is outside the property's domain (distinct keys): what it stores is not
+			// judged - but if it is refused, it is a failed load like any other and changes nothing. (The next
+			// round reloads both maps, so an accepted one does not outlive this round.)
+			if r.Intn(3) == 0 {
+				dk := genKeys(r, 2+r.Intn(6))
+				dk = append(dk, dk[r.Intn(len(dk))])
+				r.Shuffle(len(dk), func(a, b int) { dk[a], dk[b] = dk[b], dk[a] })
+				di := make([]int, len(dk))
+				ds := make([]string, len(dk))
+				for i := range dk {
+					di[i] = -7 - i
+					ds[i] = "VALUE-OF-A-REFUSED-LOAD-" + fmt.Sprint(i)
+				}
+				e1 := im.LoadFromSlice(dk, di)
+				e2 := sm.LoadFromSlice(dk, ds)
+				if e1 != nil {
+					if !c07CheckInt(cs, im, wi, append(probes, dk...), phase+" after a load that was refused for a repeated key") {
+						return
+					}
+					cs.C.Obs("failed loads checked", 1)
+				}
+				if e2 != nil {
+					if !c07CheckS2S(cs, sm, ws, append(probes, dk...), phase+" after a load that was refused for a repeated key") {
+						return
+					}
+					cs.C.Obs("failed loads checked", 1)
+				}
+				if e1 == nil || e2 == nil {
+					cs.C.DontCare("load-with-a-repeated-key-accepted")
+				}
+			}
 			prevI, prevS = wi, ws
 			prevProbes = keys[:minInt(len(keys), 50)]
 		}
